@@ -165,7 +165,7 @@ SERIALIZERS = ["ident", "str", "wrap", "neg"]
 EXC_EXCEPTION = ["ValueError", "KeyError", "RuntimeError", "UserError", "DeepUserError", "OSError", "FileNotFoundError",
                  "ZeroDivisionError", "BadStr", "UnicodeErr", "StopIteration", "FalsyError", "EmptyErrors", "BadStrRaisesBase",
                  "ExceptionGroup", "ChainedError", "NoArgsError", "NonStrArgs", "CtorArgs", "SlotsError", "LongTextError", "NestedError",
-                 "UnicodeDecodeError", "RemoteError"]
+                 "UnicodeDecodeError", "RemoteError", "OddSyntaxError"]
 EXC_BASE = ["KeyboardInterrupt", "GeneratorExit", "SystemExit", "CancelledError", "UserBase", "BadStrBase"]
 
 
